@@ -2,6 +2,7 @@
 
 import base64
 import enum
+import io
 import struct
 from typing import Any, TypeVar
 
@@ -506,6 +507,12 @@ class SVCBBase(dns.rdata.Rdata):
             k = ParamKey.make(k)
             if not isinstance(v, Param) and v is not None:
                 raise ValueError(f"{k:d} not a Param")
+            if v is not None:
+                # The length of a value is a 16-bit field.
+                f = io.BytesIO()
+                v.to_wire(f)
+                if f.tell() > 65535:
+                    raise ValueError(f"value of {k:d} is too long")
         self.params: dns.immutable.Dict = dns.immutable.Dict(params)
         # Make sure any parameter listed as mandatory is present in the
         # record.
